@@ -549,12 +549,15 @@ def generate(vc_path, out_dir, canary=False):
             fs.nloops_expected = None
             fs.bodyless = True
             fs.attrs.append("#[verifier::external_body]")
+            assumed_subs = []
             k2 += 1
             while ods[k2].name != "endfn":
                 if ods[k2].name == "ret": fs.ret = ods[k2].arg.strip()
                 elif ods[k2].name == "sig": fs.sig = ods[k2].text()
-                elif ods[k2].name == "sub" and "sig" in ods[k2].arg:
-                    pass
+                elif ods[k2].name == "sub":
+                    m2 = re.match(r"/((?:[^/\\]|\\.)*)/((?:[^/\\]|\\.)*)/\s*(.*)$", ods[k2].arg)
+                    if m2 and m2.group(1).startswith("pub fn "):
+                        fs.subs.append((m2.group(1), m2.group(2).replace("\\/", "/"), parse_opts(m2.group(3)).get("why", "")))
                 k2 += 1
             f = sf(rel)
             if block is not None:
@@ -565,7 +568,10 @@ def generate(vc_path, out_dir, canary=False):
                 raise LostAnchor("%s: assumed fn %s in %s: %d matches" % (unit_id, oname, rel, len(cands)))
             it = cands[0]
             where = "%s:%d" % (rel, f.src.count("\n", 0, it.start) + 1)
-            sink = []
+            if it.body_open is None:
+                # a trait method declaration: nothing to drop, the contract is simply declared
+                fs.attrs = []
+                fs.bodyless = False
             apply_fn(fs, it.text, unit_id, rewrites_log, out, where)
             functions.append({"fn": oname, "path": where, "sha256": hashlib.sha256(it.text.encode()).hexdigest()[:16],
                               "assumed": True, "proved_in": ou})
